@@ -36,11 +36,11 @@ type World struct {
 	LBTC *Chain
 	LN   *Ledger
 
-	Nodes map[string]*Node  // real nodes by name
+	Nodes     map[string]*Node // real nodes by name
 	nodeOrder []string
 	blockSubs []func(*Chain)
-	Peers map[string]*Peer  // scripted peers by name
-	byKey map[string]string // node id (pubkey hex) -> name
+	Peers     map[string]*Peer  // scripted peers by name
+	byKey     map[string]string // node id (pubkey hex) -> name
 
 	queue   []*qItem
 	timers  []*vTimer
@@ -63,12 +63,12 @@ type World struct {
 
 // Violation is a monitor verdict with a witness.
 type Violation struct {
-	Property  string `json:"property"`
-	Rule      string `json:"rule"`
-	Signature string `json:"signature"`
-	Detail    string `json:"detail"`
-	Seed      int64  `json:"seed"`
-	Case      string `json:"case"`
+	Property  string  `json:"property"`
+	Rule      string  `json:"rule"`
+	Signature string  `json:"signature"`
+	Detail    string  `json:"detail"`
+	Seed      int64   `json:"seed"`
+	Case      string  `json:"case"`
 	Trace     []Event `json:"trace,omitempty"`
 }
 
